@@ -18,31 +18,40 @@ Line == TraceLog[l]
 Vec(r) == [d \in Denom |-> r[d]]
 
 Observed(st) ==
-    /\ bal' = [p \in Payer |-> Vec(st.bal[p])]
-    /\ tre' = [k \in Treasury |-> Vec(st.tre[k])]
+    /\ bal' = [a \in Acct |-> Vec(st.bal[a])]
     /\ nreq' = st.nreq
     /\ remain' = Vec(st.remain)
+    /\ esc' = st.esc /\ nsig' = st.nsig
 
 TraceInit ==
     /\ l = 1
-    /\ bal = [p \in Payer |-> Zero] /\ tre = [k \in Treasury |-> Zero] /\ nreq = 0 /\ remain = Zero
+    /\ bal = [a \in Acct |-> Zero] /\ nreq = 0 /\ remain = Zero
+    /\ sigFee = 0 /\ open = <<>> /\ esc = 0 /\ nsig = 0
     /\ out = "init"
-    /\ last = [p |-> CHOOSE p \in Payer : TRUE, ask |-> 0, srcs |-> <<>>, limit |-> Zero]
+    /\ last = [p |-> CHOOSE p \in Payer : TRUE, ask |-> 0, srcs |-> <<>>, limit |-> Zero, enc |-> FALSE]
 
 TReset ==
     /\ Line.e = "Reset"
     /\ Observed(Line.s)
     /\ Line.s.nreq = 0
+    /\ sigFee' = Line.c.sigFee /\ open' = <<>>
     /\ out' = "init"
-    /\ last' = [p |-> CHOOSE p \in Payer : TRUE, ask |-> 0, srcs |-> <<>>, limit |-> Zero]
+    /\ last' = [p |-> CHOOSE p \in Payer : TRUE, ask |-> 0, srcs |-> <<>>, limit |-> Zero, enc |-> FALSE]
 
 TRequest ==
     /\ Line.e = "Request"
-    /\ Request(Line.a.p, Line.a.ask, Line.a.srcs, Vec(Line.a.limit))
+    /\ Request(Line.a.p, Line.a.ask, Line.a.srcs, Vec(Line.a.limit), Line.a.enc)
     /\ out' = (IF Line.o.ok THEN "ok" ELSE "rej")
     /\ Observed(Line.s)
 
-TraceNext == l <= Len(TraceLog) /\ l' = l + 1 /\ (TReset \/ TRequest)
+\* the end of a block (all open requests were reported by their validators: each is resolved now)
+TResolve ==
+    /\ Line.e = "EndBlock"
+    /\ Line.o.ok
+    /\ IF open = <<>> THEN UNCHANGED vars ELSE Resolve
+    /\ Observed(Line.s)
+
+TraceNext == l <= Len(TraceLog) /\ l' = l + 1 /\ (TReset \/ TRequest \/ TResolve)
 TraceSpec == TraceInit /\ [][TraceNext]_tvars
 
 TraceAccepted ==
@@ -53,4 +62,5 @@ TraceAccepted ==
 IsReset == l <= Len(TraceLog) /\ TraceLog[l].e = "Reset"
 TExact == [][IsReset \/ ExactA]_tvars
 TConserved == [][IsReset \/ ConservedA]_tvars
+TSigning == [][IsReset \/ SigningA]_tvars
 =============================================================================
